@@ -382,5 +382,8 @@ func TestC08(t *testing.T) {
 		n := vlib.Scale(1500, 20000)
 		parallelCases(n, 16, func(i int) { c08Case(ev, driver, i, i%25 == 0) })
 	}
+	for _, driver := range vlib.Drivers() {
+		c08ManyHosts(ev, driver, 100)
+	}
 	finish(t, ev)
 }
